@@ -457,10 +457,6 @@ package lfs
 //@   assumed
 //@   props C13
 //@   noeffect
-//@ func github.com/git-lfs/git-lfs/v3/git.AttrPathsFromReader
-//@   assumed
-//@   props C13
-//@   modifies fresh
 //@ func github.com/git-lfs/git-lfs/v3/errors.NewPointerScanError
 //@   assumed
 //@   props C13
@@ -492,3 +488,16 @@ package lfs
 //@   props C01 C07
 //@   modifies fresh
 //@   ensures result != nil && isfresh(result) && result.Name == name && result.Priority == priority && result.Oid == oid
+
+// C04: the working-tree path a pointer is checked out to.  The name recorded in
+// the tree is joined to the repository root and made relative to the current
+// directory by filepath.Rel - by nothing else (no string-prefix short cuts: a
+// sibling directory whose name merely starts like the current one is not below
+// it); only when Rel fails the absolute path is used.
+//@ func (*repoToCurrentPathConverter).Convert
+//@   props C04
+//@   requires @inv p != nil
+//@   modifies fresh
+//@   ensures p.passthrough ==> result == filename
+//@   ensures !p.passthrough && gocall("path/filepath.Rel", 1, p.currDir, scat(scat(p.repoDir, "/"), filename)) == nil ==> result == gocall("path/filepath.ToSlash", 0, gocall("path/filepath.Rel", 0, p.currDir, scat(scat(p.repoDir, "/"), filename)))
+//@   ensures !p.passthrough && gocall("path/filepath.Rel", 1, p.currDir, scat(scat(p.repoDir, "/"), filename)) != nil ==> result == scat(scat(p.repoDir, "/"), filename)
